@@ -71,7 +71,7 @@ _EVAL_TRUSTED = _OPS_TRUSTED + [
     'compute_attractor_states (driver of the foreign ITGR + Xie-Beerel algorithms of biodivine-algo-bdd-scc): ASSUMED to return, inside the given universe, exactly the states satisfying !{x}: AG EF {x}',
     'get_canonical_and_renaming: in unit eval only its abstract contract is used (result = canon_str / canon_map of the text) together with two ASSUMED facts about canonical forms of rendered trees (axiom_canon_wild, axiom_canon_not_wild in spec/evalctx.rs): a wild-card proposition with a plain label is its own canonical form, and nothing else has a canonical form of that shape',
     'prelude/std_model.rs: String keys obey the hash-map key model, a String / BTreeMap is determined by its contents, a &str key denotes the String with the same characters, HashMap::get_mut; R-mapindex (map[&k] = *map.get(&k).unwrap()), R-refiter (for x in &m = for x in m.iter()), R-tupleclone, R-tostr (Display of HctlTreeNode prints formula_str)',
-    'STAGE 1 precondition of eval_node: the duplicate table of the EvalContext holds wild-card propositions only (sub-formula sharing off) and every wild-card counter covers the occurrences still to be evaluated; the string-based entry points (which enable sharing through mark_duplicates) are NOT yet under contract -- transparency of sharing is property C04',
+    'cache soundness (C04) is proved modulo (a) the ASSUMED semantic soundness of canonical keys axiom_key_sound (= the only-if direction of C09), (b) the ASSUMED contract of mark_duplicates (keys of formulae with at most one variable name, counters >= 1), (c) wild-card counters that cover the occurrences still to be evaluated (budget_pre), and (d) the two KNOWN FINDINGS D5 / D8 (known_findings.json): the assertions hit_universe_ok / hit_slot_ok in the cache-hit path are false for the current repository code',
     'names: HCTL variable names have a slot in the graph (byte length - 1 < number of extra variable sets), nested quantifiers use distinct slots (preprocessing names them x, xx, ... by depth), propositions are network variables, domain sets do not depend on the auxiliary variables, context sets lie inside the unit set',
 ]
 _EVAL_ASSUME = ['the graph handed to the evaluator carries its BooleanNetwork (as_network() is Some) and its unit set satisfies the regulation constraints and does not constrain state or auxiliary variables (graphs built by get_extended_symbolic_graph)']
@@ -172,4 +172,17 @@ PROPS['C07'] = {
     'level_note': 'Trusted: Verus/Z3, vstd HashMap/String specs + String key model and &str-borrow axioms (prelude/std_model.rs), SymbolicContext::find_network_variable as an uninterpreted table prop_index, constructors proved in unit tree. Formulae shorter than 2^32 characters.',
     'explanation': 'spec/rename.rs: well_scoped, rename_spec, alpha_eq written from the statement; mview = view of the exec HashMap<String,String> as a map on character sequences.',
     'trusted': ['prelude/std_model.rs axioms (String key model, string extensionality, &str borrow)', 'HashMap::clone specified up to extensional equality of the view'],
+}
+
+PROPS['C04'] = {
+    'units': ['ops', 'eval'],
+    'functions': {'ops': ['substitute_hctl_var', 'create_comparator_two_vars', 'create_equalizer', 'project_out_hctl_var'], 'eval': ['eval_node']},
+    'level_text': ('Proof of a representation invariant of the EvalContext (ctx_inv): every cached value is either a wild-card set or, for a ghost witness '
+                   'tree with the same canonical key, agrees with the semantics of that tree inside the unit set it was computed on; every hit (with the '
+                   'renaming of its at most one variable), every store and every counter update re-establishes it, so the result of eval_node agrees '
+                   'with the semantics whatever the evaluation history is. Two obligations of the hit path FAIL on the repository code and are '
+                   'recorded as known findings D5 / D8 with failing inputs (sharing across differently restricted scopes is unsound).'),
+    'level_note': 'Assumed: axiom_key_sound (equal canonical keys => semantics equal up to renaming of the one variable; the soundness direction of C09), the contract of mark_duplicates, wild-card budget. Entry points (batches) are not yet under contract: batch transparency follows from this invariant but is not a discharged obligation yet.',
+    'explanation': 'contracts/eval.ctr: hit path (witness extraction, loops over the two renaming maps with ghost iterators, lemma_hit_rename / lemma_hit_closed), store paths (lemma_store_entry), counters (ctx_inv clause 1), wild-card budget lemmas.',
+    'trusted': _EVAL_TRUSTED, 'assumptions': _EVAL_ASSUME,
 }
